@@ -87,8 +87,13 @@ class World:
         self.costs_def = []
         for j in range(self.m):
             mx = maximise if maximise is not None else bool(D.weighted('cfg', ('max', j), (2, 1)))
-            self.costs_def.append({'name': cnames[j], 'criteria': 'maximize' if mx else 'minimize'})
-        self.signs = [(-1 if c['criteria'] == 'maximize' else 1) for c in self.costs_def]
+            cd = {'name': cnames[j], 'criteria': 'maximize' if mx else 'minimize'}
+            # a minimised objective may be declared without the 'criteria' key (the documented default); the sign of every
+            # objective belongs to its own position whichever of its neighbours carry the key
+            if not mx and D.weighted('cfg', ('nocrit', j), (3, 1)) == 1:
+                del cd['criteria']
+            self.costs_def.append(cd)
+        self.signs = [(-1 if c.get('criteria') == 'maximize' else 1) for c in self.costs_def]
         self.centres = [[0.25 * j + 0.5 * D.unit('cfg', ('c', j, i)) for i in range(self.n)]
                         for j in range(self.m)]
         self.thr = [(0.7, 0.5, 0.9)[D.dec('cfg', ('thr', k), 3)] for k in range(self.ncons)]
